@@ -67,3 +67,24 @@ impl Thread {
     pub fn interrupted(&self) -> (r: bool) ensures r == interrupt_requested(*self) { unimplemented!() }
 }
 pub struct LoopContext { pub thread: Thread }
+
+// ---- host calls of gluon functions (api/function.rs call_any_first; call_first is its macro-generated twin)
+// "the error `out` is what thread.rs reset_after_error returned for `err` at `level`": established only by that function,
+// whose own body is verified above against the frame-list contract (reset_after_error on a `&mut Context`)
+pub uninterp spec fn was_reset(vm: Thread, level: usize, err: Error, out: Error) -> bool;
+#[verifier::external_body]
+pub fn reset_after_error_on(vm: &Thread, level: usize, err: Error) -> (r: Error)
+    ensures was_reset(*vm, level, err, r)
+{ unimplemented!() }
+#[verifier::external_body] pub struct RetValue { _p: () }
+#[verifier::external_body] pub struct StackValue { _p: () }
+pub struct ValStack { pub values: Vec<StackValue> }
+impl ValStack {
+    #[verifier::external_body]
+    pub fn last(&self) -> (r: Option<&StackValue>) ensures r is Some == (self.values@.len() > 0) { unimplemented!() }
+    #[verifier::external_body]
+    pub fn pop(&mut self) { unimplemented!() }
+}
+pub struct CallContext { pub stack: ValStack }
+#[verifier::external_body]
+pub fn from_value(vm: &Thread, v: &StackValue) -> RetValue { unimplemented!() }
